@@ -3,7 +3,8 @@
 
   `Generated/PostArith.lean` is re-extracted on every run from `Deltas.__init__` (length and taps of the base filter, the
   recursion `filts[idx+1] = convolve(filts[idx], delta_filter)`) and from `Deltas.apply` (`max_offset`, the bounds of the
-  slice taken from the full correlation, both pad widths, the correlation mode, the loop over `self._filts[1:]`).  The
+  slice taken from the full correlation, both pad widths, the correlation mode, the loop over `self._filts[1:]`) and from
+  `Stack.__init__` / `Stack.apply` (the guard, both `%`, `rem`, pad widths, padded length, `nT`, `nF`, kept length, slices).  The
   theorems show that the hand-written model `Model/Post.lean` — the one all C15 theorems are about — uses exactly these.
 -/
 import PdsVerif.Generated.PostArith
@@ -52,5 +53,93 @@ theorem shape_facts : deltas_filters_by_convolution = true ∧ deltas_pads_max_o
 
 /-! non-vacuity -/
 example : deltas_base_len 2 = 5 ∧ deltas_max_offset 5 = 2 ∧ deltas_max_offset 9 = 4 ∧ deltas_slice_lo 5 = 4 ∧ deltas_slice_hi 5 = -4 := by decide
+
+/-! ## Stack: the whole integer part of `apply`, and the strided slices of the N-D branch -/
+
+/-- `Stack.__init__` accepts exactly what the source's guard lets through -/
+theorem stack_new_eq_gen (n t : Int) (pm : Option (PadMode α)) :
+    Stack.new n t pm = (if stack_init_rejects n = true then .error .value else .ok ⟨n.toNat, t, pm⟩) := by
+  unfold Stack.new stack_init_rejects
+  by_cases h : n < 1 <;> simp [h]
+
+/-- Python's `%` with a positive right operand is Lean's `%` on `Int` -/
+theorem stack_axis_eq (a : Int) (nd : Nat) : stack_axis a (nd : Int) = a % (nd : Int) := by
+  unfold stack_axis; exact Int.fmod_eq_emod_of_nonneg _ (Int.natCast_nonneg nd)
+
+theorem stack_time_axis_eq (t : Int) (nd : Nat) : stack_time_axis t (nd : Int) = t % (nd : Int) := by
+  unfold stack_time_axis; exact Int.fmod_eq_emod_of_nonneg _ (Int.natCast_nonneg nd)
+
+theorem stack_rem_eq (T n : Nat) : (stack_rem (T : Int) (n : Int)).toNat = T % n := by
+  unfold stack_rem
+  rw [Int.fmod_eq_emod_of_nonneg _ (Int.natCast_nonneg n)]
+  omega
+
+theorem stack_pad_before_eq : stack_pad_before.toNat = 0 := rfl
+
+theorem stack_pad_after_eq (n rem : Nat) : (stack_pad_after (n : Int) (rem : Int)).toNat = n - rem := by
+  unfold stack_pad_after; omega
+
+theorem stack_T_padded_eq (T n rem : Nat) (h : rem ≤ n) :
+    (stack_T_padded (T : Int) (n : Int) (rem : Int)).toNat = T + (n - rem) := by
+  unfold stack_T_padded; omega
+
+theorem stack_nT_eq (T n : Nat) : (stack_nT (T : Int) (n : Int)).toNat = T / n := by
+  unfold stack_nT
+  rw [Int.fdiv_eq_ediv_of_nonneg _ (Int.natCast_nonneg n), ← Int.natCast_ediv]
+  rfl
+
+theorem stack_nF_eq (F n : Nat) : (stack_nF (F : Int) (n : Int)).toNat = F * n := by
+  unfold stack_nF; rw [← Int.natCast_mul]; rfl
+
+theorem stack_T_kept_eq (nT n : Nat) : (stack_T_kept (nT : Int) (n : Int)).toNat = nT * n := by
+  unfold stack_T_kept; rw [← Int.natCast_mul]; rfl
+
+/-- **the model's `prepare` (everything `Stack.apply` does before the `features.ndim == 2` test) runs on the source's
+arithmetic**: both axes by Python's `%`, the same-axis guard, `rem`, the pad widths `(0, n - rem)` on the time axis, the
+padded length, `nT`, `nF` and the kept length `nT * n` -/
+theorem stack_prepare_eq_gen (c : Stack α) (x : Tensor α) (axis : Int) (hn : 0 < c.numVectors) :
+    Stack.prepare c x axis =
+      (if x.shape.length = 0 then .error .zeroDivision
+       else
+         let nd : Int := (x.shape.length : Int)
+         let n : Int := (c.numVectors : Int)
+         let ax := (stack_axis axis nd).toNat
+         let ta := (stack_time_axis c.timeAxis nd).toNat
+         if ax = ta then .error .runtime
+         else
+           let T0 := x.shape.getD ta 0
+           let F := x.shape.getD ax 0
+           let rem := (stack_rem (T0 : Int) n).toNat
+           let padded : Tensor α × Nat := match c.padMode with
+             | some mode =>
+               if rem ≠ 0 then
+                 (x.padAxis ta stack_pad_before.toNat (stack_pad_after n (rem : Int)).toNat mode,
+                  (stack_T_padded (T0 : Int) n (rem : Int)).toNat)
+               else (x, T0)
+             | none => (x, T0)
+           let nT := (stack_nT (padded.2 : Int) n).toNat
+           let nF := (stack_nF (F : Int) n).toNat
+           .ok { ta := ta, ax := ax, T := (stack_T_kept (nT : Int) n).toNat, nT := nT, nF := nF, x1 := padded.1 }) := by
+  have hrem : ∀ T : Nat, T % c.numVectors ≤ c.numVectors := fun T => Nat.le_of_lt (Nat.mod_lt _ hn)
+  obtain ⟨n, t, pm⟩ := c
+  unfold Stack.prepare
+  cases pm <;> simp only [stack_axis_eq, stack_time_axis_eq, stack_rem_eq, stack_pad_before_eq, stack_pad_after_eq, stack_nT_eq,
+    stack_nF_eq, stack_T_kept_eq, stack_T_padded_eq _ _ _ (hrem _)]
+
+/-- the N-D branch of the model takes exactly the slices the source names: `slice(i, T, num_vectors)` for
+`i in range(num_vectors)`, concatenated along `axis` -/
+theorem stack_pathNd_eq_gen (n ta ax T : Nat) (x : Tensor α) :
+    Stack.pathNd n ta ax T x =
+      Tensor.concatenate ((List.range n).map fun (i : Nat) =>
+        x.sliceAxis ta (stack_slice_start (i : Int) (T : Int) (n : Int)).toNat (stack_slice_stop (i : Int) (T : Int) (n : Int)).toNat
+          (stack_slice_step (i : Int) (T : Int) (n : Int)).toNat) (ax : Int) := rfl
+
+/-- the statement-shape facts read off `Stack.apply` (guards, order of the 2-D branch, loop and concatenation axis) -/
+theorem stack_shape_facts : stack_statement_shape = true := rfl
+
+/-! non-vacuity: a negative axis wraps, 7 frames stacked by 3 are padded by 2 to 9 or cut to 6 -/
+example : stack_axis (-1) 3 = 2 ∧ stack_rem 7 3 = 1 ∧ stack_pad_after 3 1 = 2 ∧ stack_T_padded 7 3 1 = 9 ∧
+    stack_nT 9 3 = 3 ∧ stack_nT 7 3 = 2 ∧ stack_T_kept 2 3 = 6 ∧ stack_nF 4 3 = 12 ∧ stack_init_rejects 0 = true ∧
+    stack_init_rejects 1 = false := by decide
 
 end PdsVerif.PostArithTie
